@@ -55,6 +55,11 @@ def build_problem(space):
         p.add_hyperparameter((0, 4), "depth")
         p.add_hyperparameter(["sgd", "adam", "adagrad", "rms"], "opt")
         p.add_hyperparameter((0, 3), "width")
+    elif space == "tiny":
+        # 12 points: a search longer than that exhausts the space (duplicates cannot be avoided any more)
+        p.add_hyperparameter((0, 2), "a")
+        p.add_hyperparameter(["x", "y"], "b")
+        p.add_hyperparameter([1, 2], "c")
     elif space == "forbid":
         a = p.add_hyperparameter((0, 9), "a")
         b = p.add_hyperparameter(["u", "v", "w"], "b")
@@ -75,6 +80,9 @@ def num(v):
     return float(sum((i + 1) * ord(c) for i, c in enumerate(s)) % 17)
 
 
+CONST = [False]
+
+
 def objective(cfg, nobj, fail_mod, fail_region=0.0):
     vals = [num(cfg[k]) for k in sorted(cfg)]
     t = sum(math.sin(0.7 * (i + 1) * v) + 0.05 * v for i, v in enumerate(vals))
@@ -84,6 +92,8 @@ def objective(cfg, nobj, fail_mod, fail_region=0.0):
     # points, run into failures (filter_failures paths, Optimizer.update_next)
     if fail_region and abs(t - 1.0) < fail_region:
         return "F_region"
+    if CONST[0]:
+        return 1.5 if nobj == 1 else tuple([1.5] * nobj)   # a constant objective: zero variance for scalers, ties everywhere
     if nobj == 1:
         return -((t - 1.0) ** 2)
     u = sum(math.cos(0.3 * (i + 2) * v) for i, v in enumerate(vals))
@@ -159,7 +169,29 @@ def _run_once(spec, random_state=None):
         kw = dict(spec.get("kwargs", {}))
         cls = classes[spec["search"]]
         g0 = (np.random.get_state()[1].tobytes(), np.random.get_state()[2], random.getstate())
-        search = cls(problem, ev, random_state=int(spec["seed"]) if random_state is None else random_state, log_dir=os.path.join(d, "log_%d" % k), **kw)
+        seed = int(spec["seed"])
+        sk = spec.get("seed_kind", "int")
+        seed_obj = {"int": lambda: seed, "np.int64": lambda: np.int64(seed), "np.int32": lambda: np.int32(seed % 2**31), "np.uint32": lambda: np.uint32(seed),
+                    "RandomState": lambda: np.random.RandomState(seed)}[sk]()
+        search = cls(problem, ev, random_state=seed_obj if random_state is None else random_state, log_dir=os.path.join(d, "log_%d" % k), **kw)
+        CONST[0] = bool(spec.get("const_obj"))
+        if spec.get("warm"):
+            # a seeded search continued from the results of an earlier one (checkpoint): fit_surrogate / the transfer-learning entry points
+            async def run_prev(job):
+                return objective(dict(job.parameters), nobj, 0, 0.0)
+
+            prev = RandomSearch(build_problem(spec["space"]), Evaluator.create(run_prev, method="serial", method_kwargs={"num_workers": 1}),
+                                random_state=4242, log_dir=os.path.join(d, "prev_%d" % k))
+            dfp = prev.search(max_evals=int(spec["warm"]))
+            how = spec.get("warm_how", "fit_surrogate")
+            if how == "fit_surrogate":
+                search.fit_surrogate(dfp)
+            elif how == "csv":
+                search.fit_surrogate(os.path.join(d, "prev_%d" % k, "results.csv"))
+            elif how == "fit_generative_model":
+                search.fit_generative_model(dfp)
+            elif how == "fit_search_space":
+                search.fit_search_space(dfp)
 
         # Another search (another seed, a number of draws that differs from process to process) built from the SAME HpProblem object, after
         # the observed one, and drawing before and between the steps of the observed one.
@@ -188,7 +220,12 @@ def _run_once(spec, random_state=None):
         try:
             if spec.get("mode", "search") == "search":
                 n = int(spec["evals"])
-                if other is None:
+                if spec.get("calls"):
+                    # several search() calls on the one seeded object (state that survives between the calls)
+                    for m in spec["calls"]:
+                        df = search.search(max_evals=int(m))
+                    out["table"] = table_of(df)
+                elif other is None:
                     out["table"] = table_of(search.search(max_evals=n))
                 else:
                     other_step()
